@@ -38,12 +38,20 @@ type params struct {
 	Store  string // default | payload
 	Narrow bool   // deviations only in the ack-wait path (withAckTimeoutCh, readResultLoop, readAckLoop): affordable with two deviations
 	SlowResume bool // the broker answers resume requests after 5 s
+	WithholdOne bool // after the recovery the broker never acknowledges the first chunk it receives there (it still acknowledges the others)
 	AckTO  bool   // the stream has an ack timeout of 1 s, and the client-to-broker direction of the link may stall at a chunk (pings still answered) until the link fails
 	Burst  int    // this many chunks stay unacknowledged; the broker then sends their results as single acks back to back and closes the link right behind them
 	Silent bool   // the failure is a broker that goes silent (message dropped, nothing answered any more): the keep-alive detects the outage
 }
 
 func (p params) name() string {
+	if p.WithholdOne {
+		t := ""
+		if p.AckTO {
+			t = "/acktimeout"
+		}
+		return fmt.Sprintf("%s/%s/F%d/P%d/%s/one-retransmission-never-acked%s", p.Policy, strings.Join(p.Ops, ","), p.F, p.P, p.Store, t)
+	}
 	if p.AckTO {
 		return fmt.Sprintf("%s/%s/F%d/P%d/%s/acktimeout", p.Policy, strings.Join(p.Ops, ","), p.F, p.P, p.Store)
 	}
@@ -94,6 +102,9 @@ func scenarios(tier string) []vlib.Scenario {
 	// an ack timeout expires (the broker lost the chunk, or acknowledges it late) and the link fails afterwards
 	add(params{Policy: "immediate", Ops: []string{"wA1", "Z", "wB1", "Z"}, F: 2, Store: "default", AckTO: true})
 	add(params{Policy: "none", Ops: []string{"wA1", "F", "Z", "wB1", "F", "Z"}, F: 2, Store: "default", AckTO: true})
+	// the broker never acknowledges the first chunk that is retransmitted to it: the others are owed all the same
+	add(params{Policy: "immediate", Ops: []string{"wA1", "wB1", "Z"}, F: 1, Store: "default", WithholdOne: true})
+	add(params{Policy: "immediate", Ops: []string{"wA1", "wB1", "Z"}, F: 1, Store: "default", WithholdOne: true, AckTO: true})
 	// a burst of acknowledgements with the end of the link right behind it: the stream's ack path is still
 	// forwarding when the run context ends (the hand-over queues of the stream hold 8)
 	burst := func(n, p int) params {
@@ -179,6 +190,7 @@ type world struct {
 	n        int
 	cuts     int
 	drops    int
+	withheldSeq uint32
 	stalled  int  // 1 + index of the incarnation whose client-to-broker traffic stalled
 	stalledUntilClose bool // the stalled link failed only when the application's Close had given up waiting and sent its close request
 	dropOpen bool // a chunk vanished on a link that has not failed since
@@ -289,7 +301,13 @@ func (w *world) script() *sim.Script {
 		}
 		return s
 	}
+	withheld := false
 	s.AckChunk = func(c *sim.BConn, u *sim.UpStream, ch *sim.ChunkRec) sim.AckMode {
+		if w.p.WithholdOne && c.Idx > 0 && !withheld {
+			withheld = true
+			w.withheldSeq = ch.Seq
+			return sim.AckNever
+		}
 		n := 2
 		if bgClose && c.Idx > 0 {
 			n = 3 // after the recovery the acknowledgement may also take 5 s: the Close that waits for it is still pending
@@ -624,6 +642,15 @@ func (w *world) oracle(v *vlib.Verdict, res *vsched.Result) {
 			if !hooked[seq] {
 				unacked = append(unacked, seq)
 			}
+		}
+		if w.p.WithholdOne {
+			var rest []uint32
+			for _, q := range unacked {
+				if q != w.withheldSeq {
+					rest = append(rest, q)
+				}
+			}
+			unacked = rest
 		}
 		if len(unacked) > 0 && !dev {
 			sort.Slice(unacked, func(i, j int) bool { return unacked[i] < unacked[j] })
